@@ -363,6 +363,8 @@ let run_pc_marlin c =
                     cms.(i) <- { cm with Marlin.lc_comm = { mc with Marlin.mc_shifted = None } }; true
                   | "relabel_bound" when has_some cm.Marlin.lc_bound ->
                     cms.(i) <- { cm with Marlin.lc_bound = Some (nat_of_int (int_of_string (List.hd args))) }; true
+                  | "add_bound" when not (has_some cm.Marlin.lc_bound) ->
+                    cms.(i) <- { cm with Marlin.lc_bound = Some (nat_of_int (int_of_string (List.hd args))) }; true
                   | "swap_parts" -> (match mc.Marlin.mc_shifted with
                       | Some s -> cms.(i) <- { cm with Marlin.lc_comm = { Marlin.mc_comm = s; mc_shifted = Some mc.Marlin.mc_comm } }; true
                       | None -> false)
